@@ -361,6 +361,7 @@ def compare_run(P, run, mout, winmap, problems, stats):
     out = run["out"]
     # harness lines in model order: utt, ops..., end, res
     pairs = list(zip(out, mout))
+    prev_nfrm = None
     for idx, (o, m) in enumerate(pairs):
         cs, ms = o.split(" | "), m.split(" | ")
         if len(cs) < 2 or len(ms) < 2:
@@ -376,6 +377,29 @@ def compare_run(P, run, mout, winmap, problems, stats):
                                 f"  C:[{cs[-1].strip()}] model:[{ms[-1].strip()}]")
                 return
         d = kv(cs[0])
+        # C03 frame accounting (Model/DecRet.lean, Props/C03Ret.lean): the value decoder_process_* / decoder_end_utt
+        # returned must be the one the model of the C counters (nfr, n_searchfr) computes for this call, and d->n_frame
+        # must have grown by the model's count of search steps (for decoder_end_utt: the frames searched inside it,
+        # which the call does not return) -- exact, on every call of every schedule
+        mk0 = kv(ms[0])
+        opname = (['utt'] + run['ops'] + ['end', 'res'])[idx]
+        if "rv" in mk0:
+            stats["returns_tied"] = stats.get("returns_tied", 0) + 1
+            stats["returns_tied_positive"] = stats.get("returns_tied_positive", 0) + (1 if mk0["rv"] not in ("0", "-") else 0)
+            if d.get("rv") != mk0["rv"]:
+                problems.append(f"line {idx} ({opname}): value returned by the call: C={d.get('rv')} model={mk0['rv']}"
+                                f"  (frames searched by the call in the model: {mk0.get('cnt')})")
+                return
+        elif idx > 0 and (opname.startswith("p ") or opname == "end"):
+            problems.append(f"line {idx} ({opname}): the model driver printed no return value")
+            return
+        if "nfrm" in cst:
+            if idx > 0 and prev_nfrm is not None:
+                stats["n_frame_growth_tied"] = stats.get("n_frame_growth_tied", 0) + 1
+                if int(cst["nfrm"]) - prev_nfrm != int(mk0.get("cnt", "0")):
+                    problems.append(f"line {idx} ({opname}): d->n_frame grew by {int(cst['nfrm']) - prev_nfrm}, model: {mk0.get('cnt', '0')}")
+                    return
+            prev_nfrm = int(cst["nfrm"])
         csc = parse_sc(d.get("alsc" if idx == len(pairs) - 1 else "sc", "-"))
         msc = parse_sc(kv(ms[0]).get("sc", "-"))
         if [(e[0], e[1]) for e in csc] != [(e[0], e[1]) for e in msc]:
@@ -472,6 +496,56 @@ def branch_stats(P, run, stats):
         if int(st["bp"]) < int(prev["bp"]) and op != "utt":
             b["live ring write pointer wrapped"] += 1
         prev = st
+
+
+def prior_state_wf0(P, run, mout, k, stats):
+    """audit B3: the structural facts `WF0` on the state every utterance of a decoder's history starts from (hypothesis
+    `hwf` of every C07 theorem; `C07_any_history` proves it for every history within the premises).  Evaluated twice:
+    the model's Boolean `wf0b` on its own state (printed by the driver on the start line; `wf0b_iff`), and the same facts
+    as far as the counters of the real decoder show them (grow_feat, curpos, n_feat_alloc, n_mfc_alloc; the three list
+    lengths are allocation sizes in C).  Also the premise `hcmn` of `Ev.ok` for every streaming utterance, warm-up and
+    variants included: cmn->nframe at the start + frames delivered <= CMN_WIN_HWM."""
+    out = run["out"]
+    cst, mst = kv(out[0].split(" | ")[-1]), kv(mout[0].split(" | ")[-1])
+    bad = stats.setdefault("wf0_bad", [])
+    stats["wf0_states"] = stats.get("wf0_states", 0) + 1
+    if k > 0:
+        stats["wf0_states_after_an_utterance"] = stats.get("wf0_states_after_an_utterance", 0) + 1
+    try:
+        c_ok = (cst["grow"] == "1" and 0 <= int(cst["cp"]) < P["livebuf"] and int(cst["alloc"]) >= 1 and int(cst["malloc"]) >= 1)
+        if int(cst["malloc"]) > P["nmfc"]:
+            stats["wf0_states_on_an_enlarged_cepstrum_ring"] = stats.get("wf0_states_on_an_enlarged_cepstrum_ring", 0) + 1
+    except (KeyError, ValueError):
+        c_ok = False
+    if mst.get("wf0") != "1" or not c_ok:
+        bad.append({"utterance_index_in_the_history": k, "model_wf0b": mst.get("wf0"), "C_counters": out[0].split(" | ")[-1].strip()[:200]})
+    nfull = sum(1 for o in run["ops"] if o.startswith("p ") and o.endswith(" full"))
+    nproc = sum(1 for o in run["ops"] if o.startswith("p "))
+    regime = "streaming" if nfull == 0 else "batch (one full_utt call)" if nproc == 1 else "mixed"
+    stats.setdefault("history_events", {}).setdefault(regime, 0)
+    stats["history_events"][regime] += 1
+    if regime.startswith("batch"):
+        # premises of `Ev.ok` for a batch utterance: one loop iteration (`r.more = false`) that delivered >= 1 frame
+        # (counted, not required: an utterance outside them is simply not an event the history theorem speaks about)
+        try:
+            i = next(j for j, o in enumerate(run["ops"]) if o.startswith("p ") and o.endswith(" full"))
+            ent = kv(out[1 + i].split(" | ")[0]).get("fe", "-")
+            ent = [] if ent == "-" else ent.split(",")
+            est = [x for x in ent if x.startswith("e")]
+            within = (len(est) == 1 and len(ent) == 3 and int(ent[1].split(":")[2]) == 0 and
+                      int(kv(mout[1 + i].split(" | ")[-1])["n"]) >= 1)
+        except (StopIteration, KeyError, ValueError, IndexError):
+            within = False
+        stats["batch_events_within_the_premises" if within else "batch_events_outside_the_premises"] = \
+            stats.get("batch_events_within_the_premises" if within else "batch_events_outside_the_premises", 0) + 1
+    if regime == "streaming":
+        try:
+            c0 = int(kv(out[0])["cmnframes"])
+            m = int(kv(mout[-1].split(" | ")[-1])["n"])
+            if c0 + m > P["cmnhwm"]:
+                stats.setdefault("hcmn_bad", []).append({"utterance_index_in_the_history": k, "cmn_nframe_at_start": c0, "frames": m})
+        except (KeyError, ValueError):
+            stats.setdefault("hcmn_bad", []).append({"utterance_index_in_the_history": k, "unreadable": out[0][:120]})
 
 
 def run_model(P, runs, cmn0):
@@ -830,6 +904,8 @@ def _check_group(c, binp, g, cases, cap, stats, label, depth=0, ref_last=False, 
         problems = []
         ci = index[k - 1][0] if k > 0 else -1
         compare_run(P, r, mo, winmaps.setdefault(ci, {}), problems, stats)
+        if len(mo) >= 2 and len(r.get("out", [])) >= 2:
+            prior_state_wf0(P, r, mo, k, stats)
         branch_stats(P, r, stats)
         if problems and tie_ok:
             tie_ok = False
@@ -1076,6 +1152,26 @@ def check(c):
     c.oblige("oracle: every generated calling pattern gives the result record of the reference pattern (real decoder, ASan/UBSan)",
              allok)
     c.oblige("correspondence: counters after every call, search steps and window/feature identity agree with the model", allok)
+    c.oblige("prior decoder state (hypothesis WF0 of every C07 theorem; Props/C07Hist.lean proves it for every history within the "
+             "premises): on the state EVERY utterance of every decoder history starts from, the model's wf0b is true and the same "
+             "facts hold on the real decoder's counters; premise hcmn holds for every streaming utterance of the histories",
+             not stats.get("wf0_bad") and not stats.get("hcmn_bad") and stats.get("wf0_states_after_an_utterance", 0) > 0,
+             {"prior_states_evaluated": stats.get("wf0_states", 0),
+              "of_which_after_at_least_one_earlier_utterance": stats.get("wf0_states_after_an_utterance", 0),
+              "of_which_on_a_cepstrum_ring_enlarged_by_an_earlier_batch_utterance": stats.get("wf0_states_on_an_enlarged_cepstrum_ring", 0),
+              "utterances_by_regime (streaming and batch are events of Ev; mixed ones are outside the history theorem)": stats.get("history_events", {}),
+              "failures": (stats.get("wf0_bad", []) + stats.get("hcmn_bad", []))[:5]})
+    c.cov.update({"prior_decoder_states_on_which_WF0_was_evaluated (model wf0b + C counters, one per utterance)": stats.get("wf0_states", 0),
+                  "of_which_after_at_least_one_earlier_utterance": stats.get("wf0_states_after_an_utterance", 0),
+                  "of_which_on_a_cepstrum_ring_enlarged_by_an_earlier_batch_utterance": stats.get("wf0_states_on_an_enlarged_cepstrum_ring", 0),
+                  "utterances_of_the_histories_by_regime": stats.get("history_events", {}),
+                  "batch_utterances_within_the_premises_of_Ev.ok (one loop iteration, >= 1 frame)": stats.get("batch_events_within_the_premises", 0),
+                  "batch_utterances_outside_them": stats.get("batch_events_outside_the_premises", 0)})
+    c.oblige("correspondence (C03 frame accounting): the value every decoder_process_* / decoder_end_utt call returned equals the "
+             "return value the counter model (Model/DecRet.lean) computes for that call, and d->n_frame grew by the model's count",
+             allok and stats.get("returns_tied", 0) > 0 and stats.get("returns_tied_positive", 0) > 0,
+             {"calls_compared": stats.get("returns_tied", 0), "with_a_positive_return": stats.get("returns_tied_positive", 0),
+              "n_frame_growths_compared": stats.get("n_frame_growth_tied", 0)})
     unhit = [b for b in ["call yielding no frame while STARTED", "end of utterance while STARTED with a pending frame",
                          "end of utterance with no audio", "cepstrum ring wrap (fe call limited by ring end)",
                          "output-limited fe call with samples left (decoder loops)", "more than 128 frames buffered",
@@ -1087,6 +1183,9 @@ def check(c):
                           "distinct = distinct (clip, pattern) tuples; every pattern differs from the reference in chunking, buffering, entry point or queries",
                   "utterances_decoded": stats["utterances"], "search_steps_compared_with_model": stats["steps"],
                   "front_end_calls_predicted_by_the_composed_model_from_chunk_lengths_and_compared (room:frames:left)": stats.get("fe_calls_tied", 0),
+                  "return_values_compared_with_the_counter_model (decoder_process_* / decoder_end_utt, exact)": stats.get("returns_tied", 0),
+                  "of_which_positive_returns": stats.get("returns_tied_positive", 0),
+                  "d->n_frame_growths_compared_with_the_counter_model": stats.get("n_frame_growth_tied", 0),
                   "pattern_kinds": dict(stats["kinds"]), "chunk_size_histogram_samples": dict(stats["chunks"]),
                   "entry_points": dict(stats["entry"]), "no_search_flag": dict(stats["nosearch"]), "partial_queries": dict(stats["queries"]),
                   "clip_length_frames": dict(stats["clip_frames"]), "patterns_with_first_chunk_shorter_than_a_window": stats["first_chunk_lt_window"],
@@ -1104,7 +1203,7 @@ def check(c):
 
 def lean_all(c):
     """Props/C07.lean (M5) and Props/C07Fe.lean (M5 with c06's front-end model inside; imports Props/C06.lean)"""
-    c.leanchecker_modules = lambda: ["SSVerif.Props.C07", "SSVerif.Props.C07Fe"]
+    c.leanchecker_modules = lambda: ["SSVerif.Props.C07", "SSVerif.Props.C07Fe"] + [f"SSVerif.Props.{x}" for x in vlib.EXTRA_PROPS.get("C07", [])]
     ok = c.lean_obligations(extra_targets=("SSVerif.Props.C07Fe",))
     hits = vlib.grep_forbidden(["SSVerif.Props.C07Fe"])
     c.oblige("no sorry/admit/axiom/native_decide/bv_decide/implemented_by/unsafe/maxHeartbeats 0 in the modules "
